@@ -201,8 +201,15 @@ class HeaderList(Contract):
         return None
 
     def _codec(self, args, kwargs, default):
-        if kwargs or len(args) > 1:
-            raise Unsupported('codec call with error handler / keywords')
+        if kwargs:
+            raise Unsupported('codec call with keywords')
+        if len(args) == 2 and isinstance(args[1], VStr) and z3.is_string_value(z3.simplify(args[1].t)) \
+                and isinstance(args[0], VStr) and z3.is_string_value(z3.simplify(args[0].t)):
+            # an explicit error handler makes it a different function of the text (uninterpreted under its own name)
+            return (z3.simplify(args[0].t).as_string().lower().replace('-', '').replace('_', '') + '_errors_' +
+                    z3.simplify(args[1].t).as_string())
+        if len(args) > 1:
+            raise Unsupported('codec call with a symbolic error handler')
         if not args:
             return default.replace('-', '')
         s = z3.simplify(args[0].t) if isinstance(args[0], VStr) else None
